@@ -182,6 +182,38 @@ def gen_giveup(rng):
     return dict(types=types, molecules=molecules, opts=opts, seed=rng.randint(0, 10 ** 6))
 
 
+def gen_branched_retry(rng):
+    """fully built branched molecules (stars, combs, random trees; chains too) whose FIRST attempt is given up
+    after some residues were placed (a failing step with fewer placed residues than a rewind needs) and whose
+    LATER attempt has a failing step as well (rewind or another retry): every placement outcome must still end
+    with every residue positioned once"""
+    nres = rng.randint(4, 9)
+    shape = rng.choice(["star", "comb", "tree", "chain"])
+    if shape == "star":
+        parents = [None] + [0] * (nres - 1)
+    elif shape == "comb":
+        back = max(2, nres // 2)
+        parents = [None] + list(range(back - 1)) + [rng.randrange(back) for _ in range(nres - back)]
+    elif shape == "tree":
+        parents = [None] + [rng.randrange(i) for i in range(1, nres)]
+    else:
+        parents = [None] + list(range(nres - 1))
+    kinds = [gen_residue(rng, "RA"), gen_residue(rng, "QA")]
+    residues = []
+    for _ in range(nres):
+        src = rng.choice(kinds)
+        residues.append(dict(resname=src["resname"], atoms=[list(a) for a in src["atoms"]]))
+    types = [dict(name="A", residues=residues, resid0=1, parents=parents)]
+    molecules = [["A", rng.choice([1, 1, 2])]]
+    length = float(rng.choice([6, 7.5, 9]))
+    opts = dict(mode="box", box=[length] * 3)
+    first = rng.randint(2, min(5, nres - 1))          # the first attempt places first-1 residues, then gives up
+    later = first + rng.randint(2, nres)              # a failing step inside a later attempt
+    opts["fail_calls"] = sorted({first, later} | ({later + rng.randint(1, 3)} if rng.random() < 0.3 else set()))
+    opts["stream"] = "branched-retry"
+    return dict(types=types, molecules=molecules, opts=opts, seed=rng.randint(0, 10 ** 6))
+
+
 def gen_crowded(rng, nsolvent=5001):
     """more than 5000 supplied one-bead molecules (the engine opens a new KD-tree for the next molecule)
     plus one chain to build whose first attempt fails after its first residue was placed"""
@@ -221,7 +253,9 @@ def write_top(path, case):
                 bonds += list(zip(real[:-1], real[1:]))
                 vsn += [(i, real) for i, a in zip(ids, res["atoms"]) if a[1] in VIRTUAL]
                 ends.append((real[0], real[-1]))
-            bonds += [(a[1], b[0]) for a, b in zip(ends[:-1], ends[1:])]
+            # residue r hangs on residue parents[r] (default: the previous one, a linear chain)
+            parents = t.get("parents") or [None] + list(range(len(ends) - 1))
+            bonds += [(ends[parents[r]][1], ends[r][0]) for r in range(1, len(ends))]
             if bonds:
                 out.write("[ bonds ]\n")
                 for a, b in bonds:
@@ -420,7 +454,7 @@ def judge(ctx, case, res, answers, box_ans):
     natoms = sum(len(type_atoms(t)) for t in expanded(case))
     key = json.dumps(case, sort_keys=True) if natoms > 1 else None
     if "fail_calls" in case["opts"]:
-        ctx.tally(stream="crowded" if case["opts"].get("slab") else "giveup" if "maxiter" in case["opts"] else "interleaved")
+        ctx.tally(stream=case["opts"].get("stream") or ("crowded" if case["opts"].get("slab") else "giveup" if "maxiter" in case["opts"] else "interleaved"))
     hist = dict(mode=case["opts"]["mode"], status=status, types=len(case["types"]), lines=len(case["molecules"]),
                 grid="grid" in case["opts"], start="start" in case["opts"],
                 input=case["opts"].get("input_kind", "-"), res="build_res" in case["opts"])
@@ -530,6 +564,7 @@ def run(ctx):
     cases += [gen_crowded(ctx.rng) for _ in range(ctx.budget(1, 2))]
     cases += [gen_interleaved(ctx.rng) for _ in range(ctx.budget(24, 300))]
     cases += [gen_giveup(ctx.rng) for _ in range(ctx.budget(10, 120))]
+    cases += [gen_branched_retry(ctx.rng) for _ in range(ctx.budget(16, 200))]
     cases += [gen_case(ctx.rng, ctx.thorough) for _ in range(ctx.budget(100, 2100))]
     run_cases(ctx, cases)
     if not any(k == "status=ok" for k in ctx.dist):
